@@ -342,10 +342,16 @@ func runWorkers(b built, id, tier string, seed uint64, nw int, secs float64, max
 			rb, rerr := os.ReadFile(filepath.Join(odir, fmt.Sprintf("result-%d.json", i)))
 			if rerr != nil {
 				lg, _ := os.ReadFile(filepath.Join(odir, fmt.Sprintf("log-%d.txt", i)))
+				// The process died. If the scenario it was running kills a fresh
+				// process again, that is a finding about the code under test.
+				if r := retryCrashed(b, args, odir, i, string(lg)); r != nil {
+					results[i] = r
+					return
+				}
 				if len(lg) > 4000 {
 					lg = lg[len(lg)-4000:]
 				}
-				errs[i] = fmt.Sprintf("worker %d left no result (%v); log tail:\n%s", i, err, lg)
+				errs[i] = fmt.Sprintf("worker %d left no result (%v) and the scenario it was running did not kill a fresh process; log tail:\n%s", i, err, lg)
 				return
 			}
 			r := new(workerResult)
@@ -366,6 +372,56 @@ func runWorkers(b built, id, tier string, seed uint64, nw int, secs float64, max
 		}
 	}
 	return results, ""
+}
+
+// retryCrashed re-runs, in a fresh process, the one scenario a dead worker was
+// executing. If that process dies too the scenario is returned as a violation
+// of class process-crash; if it reports an ordinary violation, that one.
+func retryCrashed(b built, args []string, odir string, i int, firstLog string) *workerResult {
+	cb, err := os.ReadFile(filepath.Join(odir, fmt.Sprintf("cur-%d", i)))
+	if err != nil {
+		return nil
+	}
+	seed := strings.TrimSpace(string(cb))
+	os.Remove(filepath.Join(odir, fmt.Sprintf("result-%d.json", i)))
+	cmd := exec.Command(b.bin, append(append([]string{}, args...), "-one", seed, "-det-every", "0")...)
+	cmd.Env = workerEnv(odir, 500+i)
+	out, _ := cmd.CombinedOutput()
+	if rb, err := os.ReadFile(filepath.Join(odir, fmt.Sprintf("result-%d.json", i))); err == nil {
+		r := new(workerResult)
+		if json.Unmarshal(rb, r) == nil && r.Violation != nil {
+			return r
+		}
+		return nil // ran to completion: the first death does not reproduce
+	}
+	cf := filepath.Join(odir, fmt.Sprintf("crash-%d.json", i))
+	if _, err := os.Stat(cf); err != nil {
+		return nil
+	}
+	sd, _ := strconv.ParseUint(seed, 10, 64)
+	return &workerResult{Runs: 1, Faults: map[string]int64{}, Probes: map[string]int64{}, ViolSeed: sd, ViolFile: cf,
+		Violation: &scn.Violation{Class: "process-crash", Detail: "the worker process died while running this scenario, twice:\n" + crashHead(string(out))}}
+}
+
+func crashHead(out string) string {
+	lines := strings.Split(out, "\n")
+	for i, l := range lines {
+		if strings.HasPrefix(l, "fatal error:") || strings.HasPrefix(l, "panic:") || strings.Contains(l, "SIGSEGV") || strings.HasPrefix(l, "runtime: ") {
+			end := i + 25
+			if end > len(lines) {
+				end = len(lines)
+			}
+			return strings.Join(lines[i:end], "\n")
+		}
+	}
+	if len(out) > 2000 {
+		out = out[:2000]
+	}
+	return out
+}
+
+func looksLikeCrash(out string) bool {
+	return strings.Contains(out, "fatal error:") || strings.Contains(out, "\npanic:") || strings.HasPrefix(out, "panic:") || strings.Contains(out, "SIGSEGV") || strings.Contains(out, "stack overflow")
 }
 
 // ---- aggregate / evidence ----
@@ -579,6 +635,10 @@ func runReplayArgs(b built, dir string, idx int, args ...string) (int, *scn.Outc
 	o := new(scn.Outcome)
 	if jb, e := os.ReadFile(outf); e == nil {
 		json.Unmarshal(jb, o)
+	} else if code != 0 && code != 1 && looksLikeCrash(string(ob)) {
+		// the replayed scenario killed the process: that is the (reproduced) violation
+		o.Violation = &scn.Violation{Class: "process-crash", Detail: "the process died while running this scenario:\n" + crashHead(string(ob))}
+		code = 1
 	}
 	return code, o, string(ob)
 }
